@@ -31,27 +31,57 @@
 (* input (the mechanism waits on a 100 ms wall-clock ticker: a monitor     *)
 (* that gives up, or whose pings stop succeeding after a while, satisfies  *)
 (* Return for short outages only).                                         *)
+(*                                                                         *)
+(* The in-process bucket "of the same rate and burst" is refilled          *)
+(* continuously (golang.org/x/time/rate) from the clock the caller         *)
+(* supplies, at that clock's full resolution.  The caller clock therefore  *)
+(* has a millisecond part `sub` (Step(d): d ms pass): the Redis script     *)
+(* sees the whole second `now` only ("time counted in whole seconds"), the *)
+(* rescue bucket sees NowMs and is kept in MILLItokens - rate tokens per   *)
+(* second are rate millitokens per millisecond, so the arithmetic is exact *)
+(* for every rate, whether or not it divides 1000 or exceeds it.           *)
+(* The statement counts time in whole seconds and asks for "an in-process  *)
+(* bucket of the same rate and burst": a bucket refilled once per caller   *)
+(* second (like the script's) satisfies it as well as one refilled         *)
+(* continuously (neither holds more than the other at all times: the       *)
+(* counted one is ahead just after a second boundary, behind before it).   *)
+(* The specification therefore keeps both - the COUNTED bucket (qtok,      *)
+(* qlast: whole tokens and seconds) next to the continuous one - and       *)
+(* decides a request only where the two readings agree (RescueFirm):       *)
+(* granted if both hold n tokens, denied if neither does.  Where they      *)
+(* differ the statement leaves the choice and the model has no step.  On   *)
+(* behaviours in whole seconds the two are the same bucket.  Further, a    *)
+(* mechanism on a nanosecond clock cannot hit a token    *)
+(* interval of 1/rate s exactly: RescueSlack bounds what an interval       *)
+(* shortened by less than 1 ns adds since the bucket was last full, and a  *)
+(* denial closer than that to the threshold is not firm either.            *)
 (***************************************************************************)
 EXTENDS Integers, Sequences, FiniteSets, TLC
 
 CONSTANTS Configs,   \* set of <<rate, burst>> with 2*burst >= rate, rate >= 1, burst >= 1
           MaxN,      \* largest request size
           MaxStep,   \* largest single clock advance
-          Holds      \* real-time durations (ms) an outage may be held for (may be empty)
+          Holds,     \* real-time durations (ms) an outage may be held for (may be empty)
+          MsSteps,   \* advances of the caller clock in milliseconds (may be empty)
+          EdgeK,     \* token counts k whose refill instants 1000*k/rate ms (rounded down and up) are further Step sizes
+          LongSteps, \* whole-second clock advances beyond 1..MaxStep (long outages; may be empty)
+          Wide       \* BOOLEAN: request sizes also relative to the bucket: all it holds, one more, burst + 1
 
 VARIABLES rate, burst,
-          now, srv,          \* caller clock, server clock
+          now, sub, srv,     \* caller clock (second, millisecond within it), server clock
           tok, ts, ttlx,     \* Redis: {key}.tokens, {key}.ts, server second of expiry (0 = keys absent)
           alive,             \* Redis reachable
           mode,              \* "redis" | "rescue"   (redisAlive flag of the limiter)
           mon,               \* monitor goroutine running
-          rtok, rlast, rused,\* rescue bucket (x/time/rate): tokens, last update, ever used
+          rtok, rlast, rused,\* rescue bucket (x/time/rate): MILLItokens, caller ms of the last update, ever used
+          rfull,             \* caller ms at which the rescue bucket was last seen full
+          qtok, qlast,       \* the same bucket with time counted in whole caller seconds: tokens, second of the last update
           ib,                \* ideal bucket for the Redis-decided requests: [tok, last]
           glog,              \* grants: sequence of [t, n, by]   by \in {"redis","rescue"}
           out
 
-vars == <<rate, burst, now, srv, tok, ts, ttlx, alive, mode, mon, rtok, rlast, rused, ib, glog, out>>
-core == <<rate, burst, now, srv, tok, ts, ttlx, alive, mode, mon, rtok, rlast, rused, ib, glog>>
+vars == <<rate, burst, now, sub, srv, tok, ts, ttlx, alive, mode, mon, rtok, rlast, rused, rfull, qtok, qlast, ib, glog, out>>
+core == <<rate, burst, now, sub, srv, tok, ts, ttlx, alive, mode, mon, rtok, rlast, rused, rfull, qtok, qlast, ib, glog>>
 
 Min(a, b) == IF a < b THEN a ELSE b
 Max(a, b) == IF a > b THEN a ELSE b
@@ -60,10 +90,10 @@ TTL == (2 * burst) \div rate       \* math.floor(capacity/rate*2)
 
 Init ==
   /\ \E c \in Configs : rate = c[1] /\ burst = c[2]
-  /\ now = 0 /\ srv = 0
+  /\ now = 0 /\ sub = 0 /\ srv = 0
   /\ tok = 0 /\ ts = 0 /\ ttlx = 0
   /\ alive = TRUE /\ mode = "redis" /\ mon = FALSE
-  /\ rtok = 0 /\ rlast = 0 /\ rused = FALSE
+  /\ rtok = 0 /\ rlast = 0 /\ rused = FALSE /\ rfull = 0 /\ qtok = 0 /\ qlast = 0
   /\ ib = [tok |-> burst, last |-> 0]
   /\ glog = <<>>
   /\ out = [op |-> "cfg", rate |-> rate, burst |-> burst]
@@ -82,9 +112,25 @@ ScriptGrants(n) == Filled >= n
 IdealFilled == Min(burst, ib.tok + Max(0, now - ib.last) * rate)
 IdealGrants(n) == IdealFilled >= n
 
-\* x/time/rate: a limiter that was never used is full
-RescueFilled == IF rused THEN Min(burst, rtok + Max(0, now - rlast) * rate) ELSE burst
-RescueGrants(n) == RescueFilled >= n
+\* the in-process bucket, in millitokens on the caller clock in milliseconds; a limiter that was never used is full
+\* (x/time/rate).  FullMs: after that many ms every bucket is full (keeps the products small, TLC has 32-bit integers)
+NowMs  == now * 1000 + sub
+Cap    == burst * 1000
+FullMs == (Cap + rate - 1) \div rate
+RescueElapsed == Max(0, NowMs - rlast)
+RescueFilled == IF ~rused \/ RescueElapsed >= FullMs THEN Cap ELSE Min(Cap, rtok + RescueElapsed * rate)
+RescueGrants(n) == RescueFilled >= n * 1000
+\* A token interval of 1/rate s realised on a nanosecond clock is short by less than 1 ns, the rate high by less than
+\* rate/10^9 of itself: since the bucket was last full (T ms ago) that adds less than rate^2 * T / 10^9 millitokens.
+\* (no firm denials after more than SlackHorizon seconds of demand that never let the bucket fill up: 32-bit integers)
+SlackHorizon == 80000
+SinceFull == (NowMs - rfull) \div 1000 + 1
+RescueSlack == 1 + (((rate * rate) \div 1000 + 1) * Min(SinceFull, SlackHorizon)) \div 1000
+\* the counted reading: refilled with rate tokens per whole caller second
+CountedFilled == IF ~rused \/ (now - qlast) * 1000 >= FullMs THEN burst ELSE Min(burst, qtok + Max(0, now - qlast) * rate)
+\* decided by the statement: both readings grant, or both deny (the continuous one by more than the slack)
+RescueFirm(n) == \/ CountedFilled >= n /\ RescueGrants(n)
+                 \/ CountedFilled < n /\ SinceFull <= SlackHorizon /\ RescueFilled + RescueSlack < n * 1000
 
 (* ----------------------------------------------------------- actions *)
 
@@ -93,20 +139,24 @@ ByRedis(n) ==
   /\ ts' = now
   /\ ttlx' = srv + TTL
   /\ ib' = [tok |-> IF IdealGrants(n) THEN IdealFilled - n ELSE IdealFilled, last |-> now]
-  /\ glog' = IF ScriptGrants(n) THEN Append(glog, [t |-> now, n |-> n, by |-> "redis"]) ELSE glog
+  /\ glog' = IF ScriptGrants(n) THEN Append(glog, [t |-> now, ms |-> NowMs, n |-> n, by |-> "redis"]) ELSE glog
   /\ out' = [op |-> "allow", n |-> n, granted |-> ScriptGrants(n), via |-> "redis", ideal |-> IdealGrants(n)]
-  /\ UNCHANGED <<rtok, rlast, rused, mode, mon>>
+  /\ UNCHANGED <<rtok, rlast, rused, rfull, qtok, qlast, mode, mon>>
 
 ByRescue(n) ==
-  /\ rtok' = IF RescueGrants(n) THEN RescueFilled - n ELSE RescueFilled
-  /\ rlast' = now
+  /\ RescueFirm(n)
+  /\ qtok' = IF RescueGrants(n) THEN CountedFilled - n ELSE CountedFilled
+  /\ qlast' = now
+  /\ rtok' = IF RescueGrants(n) THEN RescueFilled - n * 1000 ELSE RescueFilled
+  /\ rlast' = NowMs
   /\ rused' = TRUE
-  /\ glog' = IF RescueGrants(n) THEN Append(glog, [t |-> now, n |-> n, by |-> "rescue"]) ELSE glog
+  /\ rfull' = IF RescueFilled = Cap THEN NowMs ELSE rfull
+  /\ glog' = IF RescueGrants(n) THEN Append(glog, [t |-> now, ms |-> NowMs, n |-> n, by |-> "rescue"]) ELSE glog
   /\ out' = [op |-> "allow", n |-> n, granted |-> RescueGrants(n), via |-> "rescue", ideal |-> RescueGrants(n)]
   /\ UNCHANGED <<tok, ts, ttlx, ib>>
 
 Allow(n) ==
-  /\ UNCHANGED <<rate, burst, now, srv, alive>>
+  /\ UNCHANGED <<rate, burst, now, sub, srv, alive>>
   /\ IF mode = "rescue"
        THEN ByRescue(n) /\ UNCHANGED <<mode, mon>>
        ELSE IF alive
@@ -120,26 +170,33 @@ Tick(dc, ds) ==
   /\ srv' = srv + ds
   /\ ttlx' = IF Present /\ srv + ds >= ttlx THEN 0 ELSE ttlx
   /\ out' = [op |-> "tick", dc |-> dc, ds |-> ds]
-  /\ UNCHANGED <<rate, burst, tok, ts, alive, mode, mon, rtok, rlast, rused, ib, glog>>
+  /\ UNCHANGED <<rate, burst, sub, tok, ts, alive, mode, mon, rtok, rlast, rused, rfull, qtok, qlast, ib, glog>>
+
+\* d milliseconds pass on the caller clock (the server clock counts whole seconds and stays behind)
+Step(d) ==
+  /\ now' = now + (sub + d) \div 1000
+  /\ sub' = (sub + d) % 1000
+  /\ out' = [op |-> "step", ms |-> d]
+  /\ UNCHANGED <<rate, burst, srv, tok, ts, ttlx, alive, mode, mon, rtok, rlast, rused, rfull, qtok, qlast, ib, glog>>
 
 Down ==
   /\ alive
   /\ alive' = FALSE
   /\ out' = [op |-> "down"]
-  /\ UNCHANGED <<rate, burst, now, srv, tok, ts, ttlx, mode, mon, rtok, rlast, rused, ib, glog>>
+  /\ UNCHANGED <<rate, burst, now, sub, srv, tok, ts, ttlx, mode, mon, rtok, rlast, rused, rfull, qtok, qlast, ib, glog>>
 
 Up ==
   /\ ~alive
   /\ alive' = TRUE
   /\ out' = [op |-> "up", ping |-> FALSE]
-  /\ UNCHANGED <<rate, burst, now, srv, tok, ts, ttlx, mode, mon, rtok, rlast, rused, ib, glog>>
+  /\ UNCHANGED <<rate, burst, now, sub, srv, tok, ts, ttlx, mode, mon, rtok, rlast, rused, rfull, qtok, qlast, ib, glog>>
 
 \* the monitor's ping succeeds
 Ping ==
   /\ mon /\ alive
   /\ mode' = "redis" /\ mon' = FALSE
   /\ out' = [op |-> "ping"]
-  /\ UNCHANGED <<rate, burst, now, srv, tok, ts, ttlx, alive, rtok, rlast, rused, ib, glog>>
+  /\ UNCHANGED <<rate, burst, now, sub, srv, tok, ts, ttlx, alive, rtok, rlast, rused, rfull, qtok, qlast, ib, glog>>
 
 \* h ms of real time pass during an outage: neither clock of the statement moves, nothing changes
 Wait(h) ==
@@ -147,10 +204,23 @@ Wait(h) ==
   /\ out' = [op |-> "hold", ms |-> h]
   /\ UNCHANGED core
 
+\* request sizes: 1..MaxN and, if Wide, the boundary values of the grant rule in the current state - everything the
+\* deciding bucket holds (must be granted), one more (must be denied) - for the in-process bucket in either reading -
+\* and burst + 1 (can never be granted)
+Holding == IF mode = "rescue" \/ ~alive THEN {CountedFilled, CountedFilled + 1, RescueFilled \div 1000, RescueFilled \div 1000 + 1}
+           ELSE {Filled, Filled + 1}
+Sizes == (1..MaxN) \cup (IF Wide THEN (Holding \cup {burst + 1}) \cap (1..(burst + 1)) ELSE {})
+\* millisecond steps: MsSteps and the refill instants of the k-th token, k \in EdgeK, rounded down and up to whole ms
+StepSizes == (MsSteps \cup {(1000 * k) \div rate : k \in EdgeK} \cup {(1000 * k + rate - 1) \div rate : k \in EdgeK}) \ {0}
+Seconds == (1..MaxStep) \cup LongSteps
+\* the server clock never ahead of the caller clock; with a long step it stands still or keeps up
+TickPair(dc, ds) == ds <= dc /\ (dc \in LongSteps \ (1..MaxStep) => ds \in {0, dc})
+
 Next ==
-  \/ \E n \in 1..MaxN : Allow(n)
+  \/ \E n \in Sizes : Allow(n)
   \/ \E h \in Holds : Wait(h)
-  \/ \E dc \in 1..MaxStep, ds \in 0..MaxStep : ds <= dc /\ Tick(dc, ds)
+  \/ \E dc \in Seconds, ds \in {0} \cup Seconds : TickPair(dc, ds) /\ Tick(dc, ds)
+  \/ \E d \in StepSizes : Step(d)
   \/ Down \/ Up \/ Ping
 
 Spec == Init /\ [][Next]_vars
@@ -158,7 +228,8 @@ Spec == Init /\ [][Next]_vars
 (* ----------------------------------------------------------- the property *)
 
 TypeOK ==
-  /\ tok \in 0..burst /\ rtok \in 0..burst /\ ib.tok \in 0..burst
+  /\ tok \in 0..burst /\ rtok \in 0..Cap /\ ib.tok \in 0..burst /\ sub \in 0..999
+  /\ rlast <= NowMs /\ rfull <= NowMs /\ qtok \in 0..burst /\ qlast <= now
   /\ mode \in {"redis", "rescue"} /\ alive \in BOOLEAN /\ mon \in BOOLEAN
   /\ (mode = "rescue") = mon
   /\ 2 * burst >= rate /\ TTL >= 1
@@ -172,13 +243,28 @@ RedisIsIdeal ==
   IF Present THEN tok = ib.tok /\ ts = ib.last
   ELSE Min(burst, ib.tok + Max(0, now - ib.last) * rate) = burst
 
-\* burst + rate * t, per bucket
+\* burst + rate * t, per bucket: whole caller seconds for the Redis bucket, real-valued t (in ms) for the in-process one
 Bound ==
   \A by \in {"redis", "rescue"} :
     LET G == SelectSeq(glog, LAMBDA g : g.by = by)
         Sum[j \in 0..Len(G)] == IF j = 0 THEN 0 ELSE Sum[j - 1] + G[j].n
     IN \A i \in 1..Len(G) : \A j \in i..Len(G) :
-          Sum[j] - Sum[i - 1] <= burst + rate * (G[j].t - G[i].t)
+          IF by = "redis" THEN Sum[j] - Sum[i - 1] <= burst + rate * (G[j].t - G[i].t)
+          ELSE 1000 * (Sum[j] - Sum[i - 1]) <= 1000 * burst + rate * (G[j].ms - G[i].ms)
+
+\* ... and not less: what has been refilled in the whole caller seconds since the deciding bucket's last decision
+\* (up to burst) is granted
+NotStarved ==
+  [][(out'.op = "allow" /\ out'.n <= burst) =>
+       IF out'.via = "rescue"
+         THEN (rused /\ out'.n <= rate * (now - qlast)) => out'.granted
+         ELSE (Present /\ out'.n <= rate * (now - ts)) => out'.granted]_vars
+
+\* both readings of the in-process bucket agree with every decision that is a step of the model
+ReadingsAgree ==
+  [][(out'.op = "allow" /\ (mode = "rescue" \/ ~alive)) =>
+       /\ out'.granted = (CountedFilled >= out'.n)
+       /\ out'.granted = (RescueFilled >= out'.n * 1000)]_vars
 
 Fallback == [][(out'.op = "allow" /\ (mode = "rescue" \/ ~alive)) => out'.via = "rescue"]_vars
 Return   == [][(out'.op = "allow" /\ mode = "redis" /\ alive) => out'.via = "redis"]_vars
@@ -189,11 +275,11 @@ OnlyPingReturns == [][(mode = "rescue" /\ mode' = "redis") => (out'.op = "ping" 
 \* available and takes exactly the granted tokens from it.  Hence Allow steps between two clock steps commute
 \* (any order of the same grants and denials in which the denials come last is again a behaviour if one order
 \* is) - the reduction used by TokenLimitConc.tla for rounds with many grants.
-Avail == IF mode = "rescue" \/ ~alive THEN RescueFilled ELSE Filled
+Avail == IF mode = "rescue" \/ ~alive THEN RescueFilled ELSE Filled * 1000      \* millitokens
 AllowExact ==
   [][out'.op = "allow" =>
-       /\ out'.granted = (Avail >= out'.n)
-       /\ Avail' = Avail - (IF out'.granted THEN out'.n ELSE 0)]_vars
+       /\ out'.granted = (Avail >= out'.n * 1000)
+       /\ Avail' = Avail - (IF out'.granted THEN out'.n * 1000 ELSE 0)]_vars
 
 \* A denial leaves the deciding bucket at a fixpoint: the same request repeated at the same clocks is
 \* denied again and changes nothing any more.  (TokenLimitConc.tla relies on it to explain all equal
@@ -203,6 +289,6 @@ DenialIdempotent ==
        IF out'.via = "redis"
          THEN /\ Filled' = tok' /\ Filled' < out'.n /\ ts' = now' /\ ttlx' = srv' + TTL'
               /\ IdealFilled' = ib'.tok /\ ib'.last = now'
-         ELSE /\ RescueFilled' = rtok' /\ RescueFilled' < out'.n /\ rlast' = now' /\ rused']_vars
+         ELSE /\ RescueFilled' = rtok' /\ RescueFilled' < out'.n * 1000 /\ rlast' = NowMs' /\ rused']_vars
 
 =============================================================================
